@@ -261,6 +261,26 @@ class CharAllowed:
                     r = r & self.cmp(self.num(left, env), op, self.num(right, env))
                 left = right
             return r
+        if isinstance(e, ast.Call) and isinstance(e.func, ast.Name) and e.func.id in ("any", "all") and len(e.args) == 1 \
+                and isinstance(e.args[0], (ast.GeneratorExp, ast.ListComp)) and len(e.args[0].generators) == 1 \
+                and isinstance(e.args[0].generators[0].target, ast.Name):
+            # any(<cond over r> for r in TABLE): unrolled over a literal table (a display, a class attribute of the
+            # grammar's MRO, a module constant)
+            g = e.args[0]
+            gen = g.generators[0]
+            table = self.literal_table(gen.iter, defcls)
+            if table is None:
+                raise Unsupported(norm(e))
+            from .inline import _Sub, clone
+            r = ISet() if e.func.id == "any" else ISet.all()
+            for item in table:
+                body = _Sub({gen.target.id: item}).visit(clone(g.elt))
+                c = self.cond(body, env, defcls)
+                for test in gen.ifs:
+                    t_ = self.cond(_Sub({gen.target.id: item}).visit(clone(test)), env, defcls)
+                    c = (c & t_) if e.func.id == "any" else (c | ~t_)
+                r = (r | c) if e.func.id == "any" else (r & c)
+            return r
         if self.is_super_call(e):
             after = defcls
             c, fn = self.repo.resolve_method(self.cname, "char_allowed", after=after)
@@ -275,6 +295,24 @@ class CharAllowed:
             if e.func.attr == "isascii":
                 return ISet([(0, 127)])
         raise Unsupported(norm(e))
+
+    def literal_table(self, it, defcls):
+        """element expressions of a table given as a display, self.<class attribute>, <Class>.<attribute> or a
+        module-level constant of grammar.py"""
+        if isinstance(it, (ast.Tuple, ast.List, ast.Set)):
+            return list(it.elts)
+        val = None
+        if isinstance(it, ast.Attribute) and isinstance(it.value, ast.Name):
+            owner = self.cname if it.value.id in ("self", "cls") else (it.value.id if it.value.id in self.repo.classes else None)
+            if owner:
+                r_ = self.repo.resolve_attr(owner, it.attr)
+                if r_ is not None and r_[1] == "alias":
+                    val = r_[2]
+        elif isinstance(it, ast.Name):
+            val = self.repo.module_constant("grammar", it.id)
+        if isinstance(val, (ast.Tuple, ast.List, ast.Set)):
+            return list(val.elts)
+        return None
 
     def member(self, left, right, env):
         n = self.num(left, env)
